@@ -102,61 +102,52 @@ Definition print_prog (ks : list key) : str := join (prog_tokens ks) [sp].
 Definition flag_same (f flag : str) : bool := equal_fold f flag.
 Definition has_flag (m : smsg) (f : str) : bool := existsb (fun g => flag_same g f) (s_flags m).
 
-(** header fields of the text: the lines up to the first empty one, a line
-    starting with SP / HTAB continues the previous field (RFC 5322 unfolding:
-    the line break is removed, nothing else) *)
-Definition strip_cr (l : str) : str :=
-  match rev l with c :: r => if Ascii.eqb c CR then rev r else l | [] => l end.
-Fixpoint head_block (lines : list str) : list str :=
-  match lines with
-  | [] => []
-  | l :: ls => match strip_cr l with [] => [] | line => line :: head_block ls end
-  end.
-Definition split_field (line : str) : option (str * str) :=
-  match index line [colon] with
-  | Some i => Some (firstn i line, skipn (S i) line)
-  | None => None
-  end.
-Fixpoint fields_of_lines (lines : list str) (cur : option (str * str)) : list (str * str) :=
+(** header fields of the text: the header lines (up to the first empty one)
+    are grouped into fields, a line starting with SP / HTAB continues the
+    previous field (RFC 5322 unfolding: the line break is removed, nothing
+    else).  A field is kept as (first line, text of its continuation lines). *)
+Definition is_wsp_line (line : str) : bool :=
+  match line with c :: _ => Ascii.eqb c sp || Ascii.eqb c tab | [] => false end.
+Fixpoint unfold_fields (lines : list str) (cur : option (str * str)) : list (str * str) :=
   match lines with
   | [] => match cur with Some f => [f] | None => [] end
   | line :: ls =>
-      match line with
-      | c :: _ =>
-          if Ascii.eqb c sp || Ascii.eqb c tab then
-            fields_of_lines ls (match cur with Some (n, v) => Some (n, v ++ line) | None => None end)
-          else (match cur with Some f => [f] | None => [] end) ++ fields_of_lines ls (split_field line)
-      | [] => match cur with Some f => [f] | None => [] end
-      end
+      if is_wsp_line line
+      then unfold_fields ls (match cur with Some (a, c) => Some (a, c ++ line) | None => None end)
+      else (match cur with Some f => [f] | None => [] end) ++ unfold_fields ls (Some (line, []))
   end.
-Definition fields_of (text : str) : list (str * str) := fields_of_lines (head_block (split_byte text LF)) None.
+Definition fields_of (text : str) : list (str * str) := unfold_fields (header_lines (split_byte text LF)) None.
 
+(** the field's name is [name] (case-insensitively): the line starts with name ":" *)
+Definition is_field (name : str) (first_line : str) : bool := has_prefix (to_upper first_line) (to_upper name ++ [colon]).
+(** what comes after the colon, unfolded *)
+Definition field_value (f : str * str) : str := value_after_colon (fst f) ++ snd f.
+(** the values of all occurrences of the field, in order *)
+Definition field_values (text name : str) : list str :=
+  map field_value (filter (fun f => is_field name (fst f)) (fields_of text)).
+
+(** HEADER / FROM / ...: some occurrence of the field contains the string *)
 Definition field_matches (text name v : str) : bool :=
-  existsb (fun '(n, value) => equal_fold n name && contains (to_upper value) (to_upper v)) (fields_of text).
+  existsb (fun value => contains (to_upper value) (to_upper v)) (field_values text name).
 
+(** the body: what follows the first empty line *)
 Definition body_of (text : str) : option str :=
   match index text [CR; LF; CR; LF] with
   | Some i => Some (skipn (i + 4) text)
-  | None => None
+  | None => match index text [LF; LF] with
+            | Some i => Some (skipn (i + 2) text)
+            | None => None
+            end
   end.
 
-(** date of a Date: field, as written (RFC 3501: "disregarding time and
-    timezone"): optional day-of-week and comma, 1-2 digit day, month name,
-    4-digit year *)
-Definition sent_date_of_value (v : str) : option date :=
-  let v := trim_space v in
-  let v := match index v (S_ ",") with Some i => trim_space (skipn (S i) v) | None => v end in
-  match fields v with
-  | dd :: mon :: yyyy :: _ =>
-      if forallb is_digit dd && forallb is_digit yyyy && (length yyyy =? 4)%nat
-         && (1 <=? length dd)%nat && (length dd <=? 2)%nat
-      then mk_date dd mon yyyy else None
-  | _ => None
-  end.
+(** the date of the message's first Date: field, as written (RFC 3501:
+    "disregarding time and timezone"), when its value is an RFC 5322 date-time *)
+(** RFC 5322 date-time: the parts are separated by folding white space (SP / HTAB) *)
+Definition rfc5322_date (v : str) : option date := mail_date_by (fun c => Ascii.eqb c sp || Ascii.eqb c tab) v.
 Definition sent_date (text : str) : option date :=
-  match find (fun '(n, _) => equal_fold n (S_ "Date")) (fields_of text) with
-  | Some (_, v) => sent_date_of_value v
-  | None => None
+  match field_values text (S_ "Date") with
+  | v :: _ => rfc5322_date (trim_space v)
+  | [] => None
   end.
 
 Definition sdate_val (d : sdate) : option date :=
